@@ -487,7 +487,7 @@ theorem traffic_round {x : State} {a : A} (h : RInv cfg x a) (hna : MgrNotAll cf
       intro he
       have : row ∈ (trOf (lastIO ++ T)).filter (·.1 == o) := List.mem_filter.mpr ⟨hrow, by simp [hro]⟩
       rw [he] at this; cases this
-    by_cases hc : x2.now - x2.tTraffic > 1000 ∧ recvB cfg sL cfg.mtTraffic (ackFrame cfg 0) o = true
+    by_cases hc : x2.now - x2.tTraffic > cfg.pTraffic ∧ recvB cfg sL cfg.mtTraffic (ackFrame cfg 0) o = true
     · rw [if_pos hc, List.map_map] at hmine
       rw [hmine]
       have hgrow : ∃ e, (stepR cfg x r).hist = e ++ x2.hist := by rw [hP.step]; exact ticks_grows cfg x2
